@@ -3,7 +3,7 @@
   `step : State → Op → State × Resp` is what the theorems quantify over (`run` folds it over any list)
   and what the driver executes line by line. Core-only.
 -/
-import Rosmar.Feed
+import Rosmar.Subdoc
 namespace Rosmar
 
 abbrev Sets := List (String × Option String)
@@ -40,6 +40,9 @@ inductive Op where
   | lastCas (c : String)
   | keys (c : String)
   | expState
+  | wsd (c k path : String) (cas : Nat) (v : Option String)
+  | sdi (c k path : String) (cas : Nat) (v : Option String)
+  | gsd (c k path : String)
   | draw      -- another bucket of the process draws a timestamp from the shared clock
   | restart (processHlc : Nat)   -- close every handle, new process (clock starts at `processHlc`), reopen
   deriving Repr, Inhabited
@@ -128,6 +131,9 @@ def step (s : State) : Op → State × Resp
   | .lastCas c => (s, .lastCas s.lastCas ((s.coll? c).map (·.lastCas) |>.getD 0) s.hlc)
   | .keys c => (s, .keys (((s.coll? c).map (·.docs.map (·.1)) |>.getD []).foldr insertSortedStr []))
   | .expState => (s, .next s.expNext)
+  | .wsd c k path cas v => let r := opSubdocWrite s c k path cas (if v = some "" then none else v) false; (r.1, .out r.2)
+  | .sdi c k path cas v => let r := opSubdocWrite s c k path cas v true; (r.1, .out r.2)
+  | .gsd c k path => (s, .out (opGetSubDocRaw s c k path))
   | .draw => let nc := hlcNow s.hlc s.phys; ({ s with hlc := nc }, .out { cas := nc })
   | .restart p => let s' := reopen s p; (s', .reopened s'.hlc s'.expNext)
 
